@@ -238,6 +238,10 @@ def check_laws(rows):
             from_parser = json.dumps(t, sort_keys=True) in parsed_times
             if not in_dom and not from_parser:
                 continue
+            if not in_dom and abs(off) >= 90000:
+                # time.Parse accepts "+24:60" (= +25:00), which Format prints in a form Parse rejects: outside the accept law
+                cnt["time_accepted_unprintable_zone"] = cnt.get("time_accepted_unprintable_zone", 0) + 1
+                continue
             which = "time(domain)" if in_dom else "time(accepted)"
             cnt["time_alphabet"] += 1
             if len(bft) == 0 or any(c not in alpha for c in bft):
